@@ -564,9 +564,11 @@ impl<B: BufRead> XmlReaderWithContext<B> {
         self.xml_reader.buffer_position()
     }
     pub fn read_event<'a>(&mut self, buf: &'a mut Vec<u8>) -> Result<XmlEvent<'a>, Error> {
+        buf.clear();
         Ok(self.xml_reader.read_event_into(buf)?)
     }
     pub fn read_text(&mut self, buf: &mut Vec<u8>) -> Result<String, Error> {
+        buf.clear();
         match self.xml_reader.read_event_into(buf)? {
             XmlEvent::Text(ref e) => match e.unescape() {
                 Ok(text) => Ok(text.into_owned()),
